@@ -63,6 +63,73 @@ def run(ck: Check) -> int:
         sr.note = 'K2 re.fullmatch vs Re.fullmatch of the model AST on every path of the path set'
     ck.stream('K2-regex-semantics', s_k2)
 
+
+    def s_tidypath(sr):
+        cases = []
+        for p in pats:
+            cases.append((p, R.random() < 0.5, True, R.random() < 0.7))
+        for p in gen.exhaustive('a.*?/!(|)', 4 if quick else 6):
+            cases.append((p, len(p) % 2 == 0, True, True))
+        outs = drv.ask_many([f'tidypath {int(d)} {int(e)} {int(g)} {common.enc(p)}' for p, d, e, g in cases])
+        for (p, d, e, g), o in zip(cases, outs):
+            sr.evaluations += 1
+            f = o.split(' ')
+            k = ' '.join(f[:3]) if o.startswith('ok') and len(f) > 2 and f[2] == 'oos' else ' '.join(f[:2])
+            sr.histogram[k] = sr.histogram.get(k, 0) + 1
+            if o.startswith('ok same'):
+                sr.distinct += 1
+                if len(sr.samples) < 3 and len(p) > 4:
+                    sr.samples.append({'pattern': p, 'dot': d, 'globstar': g})
+            elif (o.startswith('ok diff') and 'oos' not in f[:3]) or o.startswith('err') or o == 'bad-op':
+                sr.disagree({'stream': "K1'-path", 'pattern': p, 'dot': d, 'ext': e, 'globstar': g, 'reply': o[:500]})
+        sr.note = ("K1' for path mode: canonical AST of the faithful port == canonical AST of the tidy path compiler `compPath` "
+                   "(the object of C02path_globfree / C02path_glob) on grammar path patterns in scope and every string <= 4 (6) over "
+                   "'a.*?/!(|)' the strict path reader accepts; 'oos'/'none' = outside the theorem's scope / grammar")
+    if drv:
+        ck.stream('K1prime-tidypath', s_tidypath)
+
+    def s_sepcount(sr):
+        """`one_piece_per_segment` (Properties/C02) as an oracle on the real code: a pattern of K segments without `**`
+        accepts only paths with exactly K non-empty pieces — nothing but a written separator matches `/`."""
+        classes = ['alnum', 'alpha', 'ascii', 'blank', 'cntrl', 'digit', 'graph', 'lower', 'print', 'punct', 'space', 'upper', 'word', 'xdigit']
+        atoms = ['a', 'b', '?', '*', '[ab]', '[!a]', '[!-0]', '[+-0]', '[ -~]', '[\\/]', 'a[!b]', '@(a|b)', '+(a|?)', '@(a|[!a])', '!(a)', '*(a)b', '?(a)b',
+                 '@(a[!a]b)', '\\a'] + [f'[[:{c}:]]' for c in classes] + [f'a[[:{c}:]]b' for c in classes] + [f'[![:{c}:]]' for c in classes[:4]] + \
+                [f'@([[:{c}:]])' for c in ('punct', 'graph', 'print', 'ascii')] + [f'a@(x|[[:{c}:]])b' for c in ('punct', 'graph')]
+        paths2 = [''.join(t) for L in range(1, 6) for t in __import__('itertools').product('ab/', repeat=L)]
+        paths2 = [q for q in paths2 if not q.startswith('/')]
+        n = 0
+        for K in (1, 2, 3):
+            combos = list(__import__('itertools').product(atoms, repeat=K)) if K == 1 else \
+                [tuple(R.choice(atoms) for _ in range(K)) for _ in range(400 if quick and not ck.deep() else 6000)]
+            for segs in combos:
+                p = '/'.join(segs)
+                for fl in (G.U | G.E, G.U | G.E | G.D | G.G, G.U | G.E | G.I):
+                    sr.distinct += 1
+                    try:
+                        with common.time_limit(5):
+                            if n % 2:
+                                m = G.compile(p, flags=fl)
+                                acc = [q for q in paths2 if m.match(q)]
+                            else:
+                                acc = G.globfilter(paths2, p, flags=fl)
+                    except common.CallTimeout:
+                        continue
+                    n += 1
+                    sr.evaluations += len(paths2)
+                    for q in acc:
+                        k = len([x for x in q.split('/') if x])
+                        if k != K:
+                            ck.report(Failing(f'pattern {p!r} ({K} segments, no globstar) accepts {q!r} ({k} pieces): a non-separator construct matched "/" '
+                                              'or a separator matched nothing',
+                                              {'api': 'glob.globmatch', 'pattern': p, 'path': q, 'flags': fl}, False, True,
+                                              'wcmatch/_wcparse.py: _sequence / _restrict_sequence / path_star'), None)
+                            sr.histogram['FAIL'] = sr.histogram.get('FAIL', 0) + 1
+                            break
+                    sr.histogram['accepting-patterns'] = sr.histogram.get('accepting-patterns', 0) + (1 if acc else 0)
+        sr.note = s_sepcount.__doc__.replace('\n        ', ' ') + (' Segments: literals, ?, *, brackets (negated, ranges spanning "/", every POSIX class alone / '
+                                                                   'mid-segment / inside groups), extended groups; paths: every relative string <= 5 over "ab/".')
+    ck.search('one-piece-per-segment', s_sepcount)
+
     def s_search(sr):
         deep = ck.deep()
         ps = pats if (deep or not quick) else pats[:2000]
